@@ -25,7 +25,8 @@ impl LineSpectralPairs {
     }
 
     fn lsp2lpc(&self) -> MelGeneralizedCepstrum {
-        let m = self.len();
+        // element 0 is the gain; the line spectral frequencies are self[1..]
+        let m = self.len() - 1;
         let (mh1, mh2) = if m % 2 == 0 {
             (m / 2, m / 2)
         } else {
@@ -33,10 +34,15 @@ impl LineSpectralPairs {
             ((m + 1) / 2, (m - 1) / 2)
         };
 
-        let p: Vec<_> = self.iter().step_by(2).map(|x| -2.0 * x.cos()).collect();
-        let q: Vec<_> = self
+        let p: Vec<_> = self
             .iter()
             .skip(1)
+            .step_by(2)
+            .map(|x| -2.0 * x.cos())
+            .collect();
+        let q: Vec<_> = self
+            .iter()
+            .skip(2)
             .step_by(2)
             .map(|x| -2.0 * x.cos())
             .collect();
